@@ -243,6 +243,9 @@ func runC20(t failer, c c20Case) (abandoned, rejected int) {
 				st.conn.Feed(wire)
 			}
 			if !st.conn.AwaitQuiescentOrClosed(watchdog) {
+				if err := deadlockVerdict(fmt.Sprintf("connection %d neither went back to reading nor was closed (its gauges can never return to rest)", i)); err != nil {
+					t.Fatalf("%v", err)
+				}
 				t.Fatalf("HARNESS-BUG/INCONCLUSIVE: connection %d wedged", i)
 			}
 			check(fmt.Sprintf("after conn %d op %d (%s)", i, j, op.Kind), false)
